@@ -116,7 +116,13 @@ func runWorker(cfg workerCfg) int {
 				wo.ViolCount[key]++
 				if wo.ViolCount[key] <= 2 && len(wo.Violations) < cfg.maxViols {
 					wo.Violations = append(wo.Violations, v)
+					wo.RunDigests = len(digests)
+					writeJSON(cfg.out, wo) // keep what was found should this process be killed later (runaway memory, stall)
 				}
+			}
+			if wo.Runs%100 == 0 {
+				wo.RunDigests = len(digests)
+				writeJSON(cfg.out, wo)
 			}
 			if len(wo.Samples) < 2 && res.Nontrivial > 0 {
 				wo.Samples = append(wo.Samples, json.RawMessage(plan))
@@ -411,9 +417,12 @@ func drive(cfg driveCfg) int {
 		stSeeds = 200
 	}
 	st := selfTest(cfg, stSeeds)
-	if st.Error != "" && st.Processes < 2 {
-		fmt.Printf("MACHINERY: determinism self-test could not run: %s\n", st.Error)
-		return 2
+	selfTestDead := st.Error != "" && st.Processes < 2
+	if selfTestDead {
+		// The self-test processes died (on the unchanged tree they never do: a tree that makes them
+		// crash, stall or outgrow the memory watchdog is being looked at).  Exploration may still
+		// find and confirm a violation; with none, the check exits 2 at the end.
+		fmt.Printf("# WARNING: determinism self-test could not run: %s\n", tail([]byte(st.Error), 400))
 	}
 	nondeterministic := st.Mismatches > 0
 	if nondeterministic {
@@ -438,7 +447,7 @@ func drive(cfg driveCfg) int {
 	for _, s := range seeds {
 		seedStrs = append(seedStrs, strconv.FormatUint(s, 10))
 	}
-	isoEvery := 7
+	isoEvery := 5
 	if cfg.tier == "thorough" {
 		isoEvery = 40
 	}
@@ -622,6 +631,10 @@ func drive(cfg driveCfg) int {
 	}
 	if exit == 0 && nKnown == 0 && len(unconfirmed) > 0 {
 		fmt.Printf("MACHINERY: %d violation class(es) seen during exploration could not be reproduced in a fresh process: %v\n", len(unconfirmed), unconfirmed)
+		return 2
+	}
+	if exit == 0 && selfTestDead {
+		fmt.Println("MACHINERY: the determinism self-test processes died and no violation was confirmed")
 		return 2
 	}
 	if exit == 0 && nondeterministic {
